@@ -405,11 +405,26 @@ func c02Independence(c *Ctx, sites []cmpSite) {
 	}
 	// the operand values themselves (and what a merged operand was merged from): a
 	// condition "about another comparison's expected value" mentions exactly these
+	// A value merged into an operand that is merged into an unrelated variable as well (one
+	// buffer read per loop iteration and assigned to one of two variables by name) says nothing
+	// about this operand in a condition on that other variable: it is not a root.
 	roots := func(s cmpSite) map[ssa.Value]bool {
 		out := map[ssa.Value]bool{}
 		for _, o := range operands(s) {
-			for _, lf := range phiLeaves(o, nil, map[*ssa.Phi]bool{}) {
+			phis := map[*ssa.Phi]bool{}
+			for _, lf := range phiLeaves(o, nil, phis) {
 				if _, isConst := lf.V.(*ssa.Const); isConst {
+					continue
+				}
+				shared := false
+				if lf.V != o && lf.V.Referrers() != nil {
+					for _, r := range *lf.V.Referrers() {
+						if ph, ok := r.(*ssa.Phi); ok && !phis[ph] {
+							shared = true
+						}
+					}
+				}
+				if shared {
 					continue
 				}
 				out[lf.V] = true
@@ -574,6 +589,14 @@ func c02SignerBinding(c *Ctx) {
 		for _, r := range p.successReturns(fn) {
 			n++
 			missing, path := p.unguardedFromEntry(fn, r, iss, ser)
+			if pred := searchPredicate(retVal(r, 0)); len(missing) > 0 && pred != nil {
+				// certs[slices.IndexFunc(certs, pred)]: the equalities are what makes pred true
+				missing, path = nil, nil
+				for _, pr := range returnsOf(pred) {
+					m, _ := p.trueReturnMissing(pred, pr, 0, iss, ser)
+					missing = append(missing, m...)
+				}
+			}
 			c.Check(len(missing) == 0, "R02g", fmt.Sprintf("%s success-return#%d", p.FName(fn), n), p.Pos(r.Pos()), "signer certificate matched by issuer and serial", fmt.Sprintf("a certificate is selected as signer without %v", missing), path...)
 		}
 	}
@@ -826,9 +849,26 @@ func primitivesFailClosed(c *Ctx, rule string, all map[*ssa.Function]bool, withV
 	for f := range all {
 		fns = append(fns, f)
 	}
-	// the verify command itself
-	if v := p.Func("cmdline/verify.verifyOne"); v != nil && withVerifyCmd {
-		fns = append(fns, v)
+	// the verify command itself: verifyOne and the helpers of its package (a dispatch step given a name)
+	if withVerifyCmd {
+		for _, v := range p.pkgFuncs("cmdline/verify") {
+			if !all[v] {
+				fns = append(fns, v)
+			}
+		}
+	}
+	// a module's verifier called through the registry entry (mod.Verify / mod.VerifyStream) is a primitive too
+	isPrim := func(call *ssa.Call) (string, bool) {
+		name := p.calleeName(call.Common())
+		if prims[name] {
+			return name, true
+		}
+		if l, ok := call.Call.Value.(*ssa.UnOp); ok && l.Op == token.MUL && !call.Call.IsInvoke() {
+			if tn, f, _ := p.fieldAddr(l.X); tn == "signers.Signer" && (f == "Verify" || f == "VerifyStream") {
+				return "signers.Signer." + f, true
+			}
+		}
+		return name, false
 	}
 	sort.Slice(fns, func(i, j int) bool { return p.FName(fns[i]) < p.FName(fns[j]) })
 	n := 0
@@ -840,8 +880,8 @@ func primitivesFailClosed(c *Ctx, rule string, all map[*ssa.Function]bool, withV
 				if !ok {
 					continue
 				}
-				name := p.calleeName(call.Common())
-				if !prims[name] {
+				name, isP := isPrim(call)
+				if !isP {
 					continue
 				}
 				n++
@@ -884,7 +924,7 @@ func primitivesFailClosed(c *Ctx, rule string, all map[*ssa.Function]bool, withV
 				for _, b2 := range fn.Blocks {
 					has := false
 					for _, in2 := range b2.Instrs {
-						if c2, ok := in2.(*ssa.Call); ok && c2 != call && prims[p.calleeName(c2.Common())] {
+						if c2, ok := in2.(*ssa.Call); ok && c2 != call && isPrimCall(isPrim, c2) {
 							has = true
 						}
 					}
@@ -909,7 +949,7 @@ func primitivesFailClosed(c *Ctx, rule string, all map[*ssa.Function]bool, withV
 				}
 				hasPrim := func(b2 *ssa.BasicBlock) bool {
 					for _, in2 := range b2.Instrs {
-						if c2, ok := in2.(*ssa.Call); ok && c2 != call && prims[p.calleeName(c2.Common())] {
+						if c2, ok := in2.(*ssa.Call); ok && c2 != call && isPrimCall(isPrim, c2) {
 							return true
 						}
 					}
@@ -989,6 +1029,123 @@ func primitivesFailClosed(c *Ctx, rule string, all map[*ssa.Function]bool, withV
 				}
 				c.Check(!bad, rule, key, p.Pos(call.Pos()), "failure ends in an error (or another verification attempt)", "a failed signature / integrity verification can end in a success return", path...)
 			}
+		}
+	}
+	// a primitive tried on every candidate by a library search (slices.IndexFunc(certs, func(c) bool
+	// { return Verify(c...) == nil })): the predicate may answer true only when the primitive
+	// passed, and "no candidate passed" must not reach a success return
+	for _, fn := range fns {
+		nS := 0
+		for _, ci := range callsOf(fn) {
+			call, ok := ci.(*ssa.Call)
+			if !ok || len(call.Call.Args) != 2 {
+				continue
+			}
+			sc := call.Call.StaticCallee()
+			if sc == nil {
+				continue
+			}
+			isIndex := strings.HasPrefix(sc.String(), "slices.IndexFunc[")
+			isContains := strings.HasPrefix(sc.String(), "slices.ContainsFunc[")
+			if !isIndex && !isContains {
+				continue
+			}
+			var pred *ssa.Function
+			switch f := call.Call.Args[1].(type) {
+			case *ssa.MakeClosure:
+				pred, _ = f.Fn.(*ssa.Function)
+			case *ssa.Function:
+				pred = f
+			}
+			if pred == nil || pred.Blocks == nil {
+				continue
+			}
+			var primErrs []ssa.Value
+			for _, pc := range callsOf(pred) {
+				if pcall, ok := pc.(*ssa.Call); ok && prims[p.calleeName(pcall.Common())] {
+					if ev := errValueOf(pcall); ev != nil {
+						primErrs = append(primErrs, ev)
+					}
+				}
+			}
+			if len(primErrs) == 0 {
+				continue
+			}
+			n++
+			nS++
+			key := fmt.Sprintf("%s search with a verifying predicate#%d", p.FName(fn), nS)
+			c.Analysed(p.FName(fn))
+			passed := Guard{Name: "the primitive returned nil", Match: func(f Fact) bool {
+				if f.Kind != IsNil {
+					return false
+				}
+				for _, ev := range primErrs {
+					if stripConv(f.V) == ev {
+						return true
+					}
+				}
+				return false
+			}}
+			okPred := true
+			for _, r := range returnsOf(pred) {
+				if m, _ := p.trueReturnMissing(pred, r, 0, passed); len(m) > 0 {
+					okPred = false
+				}
+			}
+			if !okPred {
+				c.Fail(rule, key, p.Pos(call.Pos()), "the search predicate can answer true without the verification primitive having passed")
+				continue
+			}
+			notFound := Guard{Match: func(f Fact) bool {
+				if isContains {
+					return f.V == ssa.Value(call) && f.Kind == IsFalse
+				}
+				bo, ok := f.V.(*ssa.BinOp)
+				if !ok || bo.X != ssa.Value(call) {
+					return false
+				}
+				k, isK := constInt(bo.Y)
+				if !isK {
+					return false
+				}
+				switch {
+				case bo.Op == token.LSS && k == 0, bo.Op == token.EQL && k == -1, bo.Op == token.LEQ && k == -1:
+					return f.Kind == IsTrue
+				case bo.Op == token.GEQ && k == 0, bo.Op == token.NEQ && k == -1, bo.Op == token.GTR && k == -1:
+					return f.Kind == IsFalse
+				}
+				return false
+			}}
+			failEdges := passEdges(fn, notFound)
+			del := map[edge]bool{}
+			for _, b2 := range fn.Blocks {
+				for _, in2 := range b2.Instrs {
+					if c2, ok := in2.(*ssa.Call); ok && prims[p.calleeName(c2.Common())] {
+						for _, pb := range b2.Preds {
+							for si, s2 := range pb.Succs {
+								if s2 == b2 {
+									del[edge{pb.Index, si}] = true
+								}
+							}
+						}
+					}
+				}
+			}
+			var starts []*ssa.BasicBlock
+			for e := range failEdges {
+				starts = append(starts, fn.Blocks[e.from].Succs[e.succ])
+			}
+			pred2 := map[int]int{}
+			seen := reach(fn, starts, del, pred2)
+			bad := false
+			var path []string
+			for _, r := range p.successReturns(fn) {
+				if seen[r.Block().Index] {
+					bad = true
+					path = p.witness(fn, pred2, r.Block().Index)
+				}
+			}
+			c.Check(!bad, rule, key, p.Pos(call.Pos()), "no candidate verified: ends in an error", "when the verification primitive passed for none of the candidates a success return is still reachable: the signature is accepted unverified", path...)
 		}
 	}
 	if withVerifyCmd {
@@ -1591,4 +1748,9 @@ func c02SignedInfoUnique(c *Ctx) {
 	}
 	c.Check(okGuard || okSame, "R02j", "xmldsig.Verify binds the parsed reference to the hashed SignedInfo", p.Pos(ver.Pos()), map[bool]string{true: "exactly one SignedInfo is required", false: "struct parsed from the hashed element"}[okGuard],
 		"Verify checks the signature over one SignedInfo element but reads digest method, transforms and DigestValue from a parse of the whole Signature, where a repeated SignedInfo overrides the first, and nothing requires the Signature to have exactly one: an appended unsigned SignedInfo carrying the digest of a modified document makes that document verify")
+}
+
+func isPrimCall(isPrim func(*ssa.Call) (string, bool), c *ssa.Call) bool {
+	_, ok := isPrim(c)
+	return ok
 }
